@@ -104,7 +104,7 @@ def prepare_kani_unit(u, prop, tier, only):
 def decide_kani(prep, h, log_dir):
     u = prep["unit"]
     r = K.run_kani(prep["crate_dir"], u, h, log_dir)
-    if r["status"] in ("TIMEOUT",) and os.environ.get("VERIF_RETRY", "1") == "1":
+    if r["status"] in ("TIMEOUT",) and os.environ.get("VERIF_RETRY", "0") == "1":
         h2 = dict(h)
         h2["timeout"] = h["timeout"] * 2
         r2 = K.run_kani(prep["crate_dir"], u, h2, log_dir)
